@@ -103,7 +103,11 @@ def probe_handle(ctx, node, n, producer, exhaustive):
 def run(ctx):
     ch = ctx.ch
     exhaustive = ctx.cfg.get("tier") == "thorough"
-    leg = ch.weighted([3, 1, 1], "leg")
+    leg = ch.weighted([3, 1, 1, 1], "leg")
+    if leg == 3:
+        from ..engines.b_builders import run_insert_leg
+        run_insert_leg(ctx, probe_handle=lambda c, node, n, producer, ex: (c.probe("handle:" + producer), probe_handle(c, node, n, producer, ex)))
+        return
     if leg == 1:
         # engine A: add_node with explicit counts, handles re-issued, insert_hugr
         ctx.profile = {"leg": "graph"}
